@@ -163,9 +163,15 @@ class Cadence(collections.abc.MutableSequence):
         to :func:`~setigen.frame.Frame.add_signal`.
         """
         for frame in self.frames:
-            frame.ts += frame.t_start - self.t_start
-            frame.add_signal(*args, **kwargs)
-            frame.ts -= frame.t_start - self.t_start
+            # Shift to cadence time only for the duration of the injection. The 
+            # original array is put back even if the injection raises (adding and
+            # subtracting the offset in place does not round-trip exactly either)
+            ts = frame.ts
+            frame.ts = ts + (frame.t_start - self.t_start)
+            try:
+                frame.add_signal(*args, **kwargs)
+            finally:
+                frame.ts = ts
         
     def apply(self, func):
         """
